@@ -250,6 +250,15 @@ struct Dumper
       }
   }
 
+  void addScalarType (json::Object &O, char const *Key, QualType T)
+  {
+    if (T.isNull () || T->isDependentType ())
+      return;
+    QualType C = T.getCanonicalType ();
+    if (C->isIntegralOrEnumerationType () || C->isPointerType () || C->isBooleanType ())
+      O[Key] = typeStr (C);
+  }
+
   void addIv (json::Object &O, Expr const *E)
   {
     if (E->isValueDependent () || E->isTypeDependent ())
@@ -584,6 +593,8 @@ struct Dumper
 	if (X->isPostfix ())
 	  O["post"] = true;
 	O["e"] = expr (X->getSubExpr ());
+	addScalarType (O, "t", X->getType ());
+	addScalarType (O, "ot", X->getSubExpr ()->getType ());
 	addIv (O, E);
 	return std::move (O);
       }
@@ -596,6 +607,16 @@ struct Dumper
 	O["l"] = locStr (BL);
 	if (BL.isMacroID ())
 	  O["macs"] = macros (BL);
+	// result type, and the operand types after the usual arithmetic conversions (implicit casts are not
+	// emitted as nodes): enough for an evaluator to apply C++'s signed/unsigned semantics
+	addScalarType (O, "t", X->getType ());
+	addScalarType (O, "ot", X->getLHS ()->getType ());
+	addScalarType (O, "rt", X->getRHS ()->getType ());
+	if (auto *CA = dyn_cast<CompoundAssignOperator> (X))
+	  {
+	    addScalarType (O, "ct", CA->getComputationResultType ());
+	    addScalarType (O, "clt", CA->getComputationLHSType ());
+	  }
 	if (!X->isAssignmentOp ())
 	  addIv (O, E);
 	return std::move (O);
@@ -606,6 +627,7 @@ struct Dumper
 	O["c"] = expr (X->getCond ());
 	O["a"] = expr (X->getTrueExpr ());
 	O["b"] = expr (X->getFalseExpr ());
+	addScalarType (O, "t", X->getType ());
 	addIv (O, E);
 	return std::move (O);
       }
